@@ -14,7 +14,7 @@ CHECKS = {
  "C14": dict(
    spec="spec/Quantise.tla, Quantise_MC.tla, Quantise_Trace.tla",
    text="TLC enumerates every random draw for every pattern/format/srbits on small hosts and checks neighbour, fixed-point, monotone-in-draw and exact proportionality (counted, not sampled). The real code is run with torch.randint replaced by an enumerator of all 2^srbits draws; per input the step position is validated by the trace spec against the algorithm model and the proportionality invariant at host (8,23).",
-   note="Trusted: torch.randint is the only random source; fractional position is taken on the float32 prescaled value with a 2^-(24-M) slack where the prescale rounds (documented reading).",
+   note="The srbits sequence of every format (coarse to fine, default last) goes through one of the entry points quantise / quantise_fwd / quantise_bwd (thorough: all three). Trusted: torch.randint is the only random source; fractional position is taken on the float32 prescaled value with a 2^-(24-M) slack where the prescale rounds (documented reading).",
    technique="TLA+ spec + TLC exhaustive draw enumeration; trace validation with substituted random source",
    design="4/C14"),
  "C09": dict(
@@ -37,7 +37,7 @@ CHECKS = {
    design="4/C11"),
  "C07": dict(
    spec="spec/ResidualRule.tla, ResidualRule_MC.tla, ResidualRule_Eval.tla, Rat.tla",
-   text="The rule is specified in exact rationals of squared quantities; TLC checks the one-step lemma (1+tau_i^2) S_i = S_{i+1} for every branch index of every depth (quick: 14 depths up to 256 layers; thorough: all 1..256) x the 8x8 (mult, ratio) grid, the telescoped totals (sum of squared contributions = 1, attention:MLP = ratio^2, mean layer/embedding = mult^2) and explicit contribution products for depths <= 6, and refutes an off-by-one and a parity-swap deviation. TLC then emits tau^2 for every (mult, ratio, depth, index) and the harness compares the real rule (fresh objects, one shared rule object queried for random depth histories) and the taus wired into TransformerStack/TransformerDecoder built for several depths in random order and in sweeps of inline (temporary) rule objects at one depth.",
+   text="The rule is specified in exact rationals of squared quantities; TLC checks the one-step lemma (1+tau_i^2) S_i = S_{i+1} for every branch index of every depth (quick: 14 depths up to 256 layers; thorough: all 1..256) x the 8x8 (mult, ratio) grid, the telescoped totals (sum of squared contributions = 1, attention:MLP = ratio^2, mean layer/embedding = mult^2) and explicit contribution products for depths <= 6, and refutes an off-by-one and a parity-swap deviation. TLC then emits tau^2 for every (mult, ratio, depth, index) and the harness compares the real rule (fresh objects, one shared rule object queried for random depth histories) and the taus wired into TransformerStack/TransformerDecoder built for several depths in random order and in sweeps of inline (temporary) rule objects at one depth, read after module histories (casts, deepcopy, eval/train).",
    note="Trusted: float64 tau squared vs the spec's rational at 1e-12. The induction from the one-step lemma to the product identities is checked explicitly only for depths <= 6.",
    technique="TLA+ rational-arithmetic spec + TLC (lemma over all depths); replay of TLC-emitted tau^2 against the real rule and stacks",
    design="4/C07"),
@@ -56,7 +56,7 @@ CHECKS = {
  "C02": dict(
    spec="spec/Tape.tla, Tape_MC.tla, ScaledOps.tla, ScaledOps_Trace.tla",
    text="Tape specifies scale_fwd/scale_bwd on a (value multiplier, gradient multiplier) pair; TLC explores every chain of <= 3 primitives over 10 signed rational factors (0, negatives, +-1000) and emits each with its expected multipliers, which are replayed on the real primitives. The C01 configuration space x every differentiable input x two data draws x two upstream gradients + a repeated call is run against autograd of the torch reference; the log is validated by ScaledOps_Trace (one positive factor class per (configuration, input); exact direction).",
-   note="As C01; mean-reduced losses use the sum-reduced reference for gradients. Gradient slots whose conditioning on the given data is poor (measured on PyTorch alone: the same reference in a second precision) are skipped and counted.",
+   note="As C01; mean-reduced losses use the sum-reduced reference for gradients. Process history is part of the quantifier: size-siblings, a second pass in a fresh interpreter in reverse order in the same call log, a dtype-order probe on the primitives; non-contiguous inputs, all-keyword calls and partial requires_grad patterns share the configuration id of their base call (one factor for all). Gradient slots whose conditioning on the given data is poor (measured on PyTorch alone: the same reference in a second precision) are skipped and counted.",
    technique="TLA+ tape spec + TLC chain enumeration replayed on the primitives; trace validation of gradient logs",
    design="4/C02"),
  "C03": dict(
@@ -74,7 +74,7 @@ CHECKS = {
  "C06": dict(
    spec="spec/Tape.tla, Tape_MC.tla",
    text="Residual programs are ordered forests of layers whose four edges carry (forward, backward) multipliers r_i/k_i; TLC enumerates every program with <= 4 (thorough: 8, the full range of the property's quantifier: 2055 programs) layers and checks that on every path the forward and backward coefficient bags coincide (true gradient), that forward weights are r_i/k_i and that the add leaves the branch gradient unattenuated, refuting three deviations. Each emitted program with its path coefficients is built from the real residual_split/residual_add/residual_apply: with linear branches output and x.grad must equal the sum over the spec's paths; with nonlinear / unit-scaled branches the recursive closed form and its autograd; hooks check the unattenuated branch gradient; residual_apply must be bitwise the split/f/add sequence.",
-   note="float64 at 1e-10; taus in [1e-3, 1e3]; every program is first run in bf16/f16/f32 with the same taus (process history) at that precision's tolerance.",
+   note="float64 at 1e-10; taus in [1e-3, 1e3]; every program is first run in bf16/f16/f32 with the same taus (process history) at that precision's tolerance; inputs that do not require grad / torch.no_grad() with in-place branches; tau given as float / int / 0-dim tensor / keyword / omitted.",
    technique="TLA+ tape/path-algebra spec + TLC program enumeration replayed on the real residual ops",
    design="4/C06"),
  "C18": dict(
@@ -86,7 +86,7 @@ CHECKS = {
  "C19": dict(
    spec="spec/FxGraph.tla, Prune.tla, Prune_MC.tla, Prune_Trace.tla",
    text="FxGraph models torch.fx graphs (ordered node list, nested arguments, replace-all-uses, erase-needs-no-users); Prune models _prune and the three helpers one loop iteration per step, next to a declarative statement (never raises, well-formed, original order, exactly the documented removals, single-float-input nodes bypassed wherever they occur, edges preserved). TLC checks all tracked graphs with <= 2 (thorough 3: 471k states) op nodes incl. list arguments, keyword tensors, non-float nodes, 1-2 outputs, 2 rtols, 3 target sets, and refutes the two pre-fix deviations. Tracked graphs of random real modules (ScaleTrackingBackend forward+backward, and track_scales through TorchDynamo) are pruned by the real helpers for rtol in {2^-16,2^-8,2^-2} and random target sets; input graph, result, input graph afterwards and any exception are validated by Prune_Trace (node list, order, every argument position, immutability of the input).",
-   note="Metrics come from integer-valued tensors (power-of-two numel) so mean_abs is an exact small rational; (graph, rtol) pairs within 1e-9 of the isclose threshold are skipped.",
+   note="The helpers are also chained as analysis.plot does (non_float, then same_scale on its result, then selected). Metrics come from integer-valued tensors (power-of-two numel) so mean_abs is an exact small rational; skip counters are in the evidence and a degenerate generator is a machinery failure; (graph, rtol) pairs within 1e-9 of the isclose threshold are skipped.",
    technique="TLA+ graph-rewriting spec + TLC over all small graphs; trace validation of real pruning runs",
    design="4/C19"),
  "C16": dict(
@@ -116,7 +116,7 @@ CHECKS = {
  "C20": dict(
    spec="spec/ScaledOps.tla (memo machine, Modes), ScaledOps_MC.tla, ScaledOps_Trace.tla",
    text="The memo machine of ScaledOps keys a factor class by (configuration, slot) only; the events of one configuration recorded in eager mode, under torch.compile (aot_eager; thorough: inductor), through the library's leaf-wrapping tracer (gradients) and through plain fx.symbolic_trace (forward, where traceable) carry the same configuration id, so ScaledOps_Trace rejects a factor that differs between modes. In addition outputs and gradients are compared element-wise with the eager run with a dtype-scaled bound (float64: 1e-12; compositions: 64 x their float32-vs-float64 amplification x eps), for a slice of the C01/C02 configurations (every op, f64/f32/bf16) and for random compositions of 2-6 unit-scaled ops and modules.",
-   note="TorchDynamo/AOT autograd/Inductor are trusted as given. Dropout with p>0 in training mode is excluded (RNG streams differ in torch itself). Ops that plain torch.fx cannot trace symbolically are skipped for the fx clause and counted in the evidence.",
+   note="TorchDynamo/AOT autograd/Inductor are trusted as given. Every public module is also compiled as a module and called with changing batch sizes; compositions are called twice (second batch size); an op that was fx-traceable on the pinned tree and stops being so violates the fx clause. Dropout with p>0 in training mode is excluded (RNG streams differ in torch itself). Ops that plain torch.fx cannot trace symbolically are skipped for the fx clause and counted in the evidence.",
    technique="TLA+ memo machine across execution modes; trace validation + element-wise closeness to eager",
    design="4/C20"),
 }
